@@ -154,28 +154,28 @@ theorem regularB_keepsAll (h : NNet) (c : Nat) (m h' : NNet) (hr : regularB h c 
     satisfies `SubstCert`, and the result is `h5` with the outputs of the copied forks made dense (`densify`; the same
     circuit when no copied fork has a gap, `denseB`) -/
 def SubstCertD (h : NNet) (c : Nat) (m : NNet) (sh : Shape) (dn : Nat) (map : Array (Option Nat)) (h' : NNet) : Prop :=
-  ∃ h5, SubstCert h c m sh dn map h5 ∧ h' = densNN h5 (map.toList.filterMap id)
+  ∃ h5, SubstCert h c m sh dn map h5 ∧ WF h5 ∧ dn < m.net.nodes.size ∧ h' = densNN h5 (map.toList.filterMap id)
 
 /-- the certificate for the circuit `substituteCore` builds when nothing is removed -/
 theorem substituteCore_cert_keepsAll (h m : NNet) (c : Nat) (hw : WF h) (mw : WF m) (hc : c < h.net.nodes.size)
     (hio : h.net.io.contains c = false) (hcf : (h.net.node c).isFork = false)
     (hr : keepsAllB h c m = true) (hok : implOKB m = true) :
-    ∃ sh dn h5 map dang, substituteCore h c m = some (h5, map, dang) ∧ SubstCert h c m sh dn map h5 ∧
+    ∃ sh dn h5 map dang, substituteCore h c m = some (h5, map, dang) ∧ (SubstCert h c m sh dn map h5 ∧ WF h5) ∧ dn < m.net.nodes.size ∧
       (dang.all fun o => match o with
         | none => true
         | some root => keptRoot h5 (map.toList.filterMap id) root) = true := by
   obtain ⟨sh, dn, h5, map, dang, hs, hd, hcore, hni, hk⟩ := keepsAllB_spec h c m hr
   obtain ⟨k1, k2, k3, k4⟩ := implOKB_spec m mw sh dn hs hd hok
   exact ⟨sh, dn, h5, map, dang, hcore, substituteCore_cert h c m sh dn hw mw hc (by simpa using hio) hcf hs hd k1 k2 k3 k4 hni
-    h5 map dang hcore, hk⟩
+    h5 map dang hcore, (implShape_des m mw sh dn hs hd).1, hk⟩
 
 /-- the certificate for `substitute` when nothing is removed -/
 theorem substitute_cert (h m h' : NNet) (c : Nat) (hw : WF h) (mw : WF m) (hc : c < h.net.nodes.size)
     (hio : h.net.io.contains c = false) (hcf : (h.net.node c).isFork = false)
     (hr : keepsAllB h c m = true) (hok : implOKB m = true) (he : substitute h c m = some h') :
     ∃ sh dn map, SubstCertD h c m sh dn map h' := by
-  obtain ⟨sh, dn, h5, map, dang, hcore, ct, hk⟩ := substituteCore_cert_keepsAll h m c hw mw hc hio hcf hr hok
-  exact ⟨sh, dn, map, h5, ct, substitute_of_core h c m h' h5 map dang hcore ct.wf' hk he⟩
+  obtain ⟨sh, dn, h5, map, dang, hcore, ⟨ct, w5⟩, hdl, hk⟩ := substituteCore_cert_keepsAll h m c hw mw hc hio hcf hr hok
+  exact ⟨sh, dn, map, h5, ct, w5, hdl, substitute_of_core h c m h' h5 map dang hcore w5 hk he⟩
 
 end KV.Transform
 
@@ -229,47 +229,47 @@ variable {h : NNet} {c : Nat} {m : NNet} {sh : Shape} {dn : Nat} {map : Array (O
 variable (ct : SubstCertD h c m sh dn map h')
 include ct
 
-theorem SubstCertD.shape : implShape m = some sh := by obtain ⟨h5, c5, _⟩ := ct; exact c5.shape
-theorem SubstCertD.des : sh.des = some dn := by obtain ⟨h5, c5, _⟩ := ct; exact c5.des
-theorem SubstCertD.mapDn : map.getD dn none = some c := by obtain ⟨h5, c5, _⟩ := ct; exact c5.mapDn
-theorem SubstCertD.mapM : ∀ j x, map.getD j none = some x → j < m.net.nodes.size := by obtain ⟨h5, c5, _⟩ := ct; exact c5.mapM
+theorem SubstCertD.shape : implShape m = some sh := by obtain ⟨h5, c5, _, _, _⟩ := ct; exact c5.shape
+theorem SubstCertD.des : sh.des = some dn := by obtain ⟨h5, c5, _, hdl, _⟩ := ct; exact c5.des hdl
+theorem SubstCertD.mapDn : map.getD dn none = some c := by obtain ⟨h5, c5, _, hdl, _⟩ := ct; exact c5.mapDn hdl
+theorem SubstCertD.mapM : ∀ j x, map.getD j none = some x → j < m.net.nodes.size := by obtain ⟨h5, c5, _, _, _⟩ := ct; exact c5.mapM
 theorem SubstCertD.mapGe : ∀ j x, map.getD j none = some x → x = c ∨ h.net.nodes.size ≤ x := by
-  obtain ⟨h5, c5, _⟩ := ct; exact c5.mapGe
+  obtain ⟨h5, c5, _, _, _⟩ := ct; exact c5.mapGe
 theorem SubstCertD.mapInj : ∀ j1 j2 x, map.getD j1 none = some x → map.getD j2 none = some x → j1 = j2 := by
-  obtain ⟨h5, c5, _⟩ := ct; exact c5.mapInj
+  obtain ⟨h5, c5, _, _, _⟩ := ct; exact c5.mapInj
 
 theorem SubstCertD.wf' : WF h' := by
-  obtain ⟨h5, c5, e⟩ := ct
-  rw [e]; exact (densNN_dens _ h5 c5.wf').2
+  obtain ⟨h5, c5, w5, _, e⟩ := ct
+  rw [e]; exact (densNN_dens _ h5 w5).2
 
 theorem SubstCertD.nsize : h.net.nodes.size ≤ h'.net.nodes.size := by
-  obtain ⟨h5, c5, e⟩ := ct
-  rw [e, (densNN_dens _ h5 c5.wf').1.nsize]; exact c5.nsize
+  obtain ⟨h5, c5, w5, _, e⟩ := ct
+  rw [e, (densNN_dens _ h5 w5).1.nsize]; exact c5.nsize
 
 theorem SubstCertD.lsize : h'.net.lines.size = h.net.lines.size + (copiedLines m map).length := by
-  obtain ⟨h5, c5, e⟩ := ct
-  rw [e, (densNN_dens _ h5 c5.wf').1.lsize]; exact c5.lsize
+  obtain ⟨h5, c5, w5, _, e⟩ := ct
+  rw [e, (densNN_dens _ h5 w5).1.lsize]; exact c5.lsize
 
 theorem SubstCertD.io' : h'.net.io = h.net.io := by
-  obtain ⟨h5, c5, e⟩ := ct
-  rw [e, (densNN_dens _ h5 c5.wf').1.io]; exact c5.io'
+  obtain ⟨h5, c5, w5, _, e⟩ := ct
+  rw [e, (densNN_dens _ h5 w5).1.io]; exact c5.io'
 
 theorem SubstCertD.mapLt : ∀ j x, map.getD j none = some x → x < h'.net.nodes.size := by
-  obtain ⟨h5, c5, e⟩ := ct
+  obtain ⟨h5, c5, w5, _, e⟩ := ct
   intro j x hm
-  rw [e, (densNN_dens _ h5 c5.wf').1.nsize]; exact c5.mapLt j x hm
+  rw [e, (densNN_dens _ h5 w5).1.nsize]; exact c5.mapLt j x hm
 
 theorem SubstCertD.kind' : ∀ j x, map.getD j none = some x →
     (h'.net.node x).kind = if j ∈ m.net.io then "__fork__" else (m.net.node j).kind := by
-  obtain ⟨h5, c5, e⟩ := ct
+  obtain ⟨h5, c5, w5, _, e⟩ := ct
   intro j x hm
-  rw [e, (densNN_dens _ h5 c5.wf').1.kind]; exact c5.kind' j x hm
+  rw [e, (densNN_dens _ h5 w5).1.kind]; exact c5.kind' j x hm
 
 /-- the loop touches only images of `node_map`: every other node of the host keeps its record -/
 theorem SubstCertD.frameNode : ∀ d, d < h.net.nodes.size → d ≠ c → h'.net.node d = h.net.node d := by
-  obtain ⟨h5, c5, e⟩ := ct
+  obtain ⟨h5, c5, w5, _, e⟩ := ct
   intro d hd hne
-  rw [e, (densNN_dens _ h5 c5.wf').1.frame d, c5.frameNode d hd hne]
+  rw [e, (densNN_dens _ h5 w5).1.frame d, c5.frameNode d hd hne]
   intro hmem
   obtain ⟨k, hk⟩ := mem_map_values map d hmem
   rcases c5.mapGe k d hk with h1 | h1
@@ -277,10 +277,10 @@ theorem SubstCertD.frameNode : ∀ d, d < h.net.nodes.size → d ≠ c → h'.ne
   · omega
 
 theorem SubstCertD.keyFrame : ∀ d, d < h.net.nodes.size → h'.key d = h.key d := by
-  obtain ⟨h5, c5, e⟩ := ct
+  obtain ⟨h5, c5, w5, _, e⟩ := ct
   intro d hd
   rw [← c5.keyFrame d hd, e]
-  have dd := (densNN_dens (map.toList.filterMap id) h5 c5.wf').1
+  have dd := (densNN_dens (map.toList.filterMap id) h5 w5).1
   simp only [NNet.key, dd.names, NodeD.isFork, dd.kind]
 
 theorem SubstCertD.forward {α : Type _} (z : α) (neg : α → α) (prim : String → α → α → α → α → α)
@@ -292,10 +292,10 @@ theorem SubstCertD.forward {α : Type _} (z : α) (neg : α → α) (prim : Stri
       (∀ t (ht : t < (copiedLines m map).length), vm (copiedLines m map)[t] = v' (h.net.lines.size + t)) ∧
       (∀ j x k, map.getD j none = some x → ¬ (j ∈ m.net.io ∧ (m.net.node j).ins.length = 0) →
         ((h'.net.node x).inPin k).map v' = (((cutIns m (deadLine h c m sh)).net.node j).inPin k).map vm) := by
-  obtain ⟨h5, c5, e⟩ := ct
+  obtain ⟨h5, c5, w5, _, e⟩ := ct
   subst e
-  have dd := (densNN_dens (map.toList.filterMap id) h5 c5.wf').1
-  obtain ⟨f1, anm, vm, g1, g2, g3, g4⟩ := c5.forward z neg prim S hS an' v' ((dd.consOff_iff c5.wf' S z neg prim an' v').mp hc')
+  have dd := (densNN_dens (map.toList.filterMap id) h5 w5).1
+  obtain ⟨f1, anm, vm, g1, g2, g3, g4⟩ := c5.forward z neg prim S hS an' v' ((dd.consOff_iff w5.toWFm S z neg prim an' v').mp hc')
   refine ⟨f1, anm, vm, g1, g2, g3, fun j x k hm hnp => ?_⟩
   rw [← g4 j x k hm hnp]
   simp only [NodeD.inPin, dd.ins]
@@ -309,11 +309,11 @@ theorem SubstCertD.backward {α : Type _} (z : α) (neg : α → α) (prim : Str
       (∀ t (ht : t < (copiedLines m map).length), v' (h.net.lines.size + t) = vm (copiedLines m map)[t]) ∧
       (∀ j x k, map.getD j none = some x → ¬ (j ∈ m.net.io ∧ (m.net.node j).ins.length = 0) →
         ((h'.net.node x).inPin k).map v' = (((cutIns m (deadLine h c m sh)).net.node j).inPin k).map vm) := by
-  obtain ⟨h5, c5, e⟩ := ct
+  obtain ⟨h5, c5, w5, _, e⟩ := ct
   subst e
-  have dd := (densNN_dens (map.toList.filterMap id) h5 c5.wf').1
+  have dd := (densNN_dens (map.toList.filterMap id) h5 w5).1
   obtain ⟨an', v', g0, g1, g2, g3, g4, g5⟩ := c5.backward z neg prim S an v anm vm hH hM
-  refine ⟨an', v', (dd.consOff_iff c5.wf' S z neg prim an' v').mpr g0, g1, g2, g3, g4, fun j x k hm hnp => ?_⟩
+  refine ⟨an', v', (dd.consOff_iff w5.toWFm S z neg prim an' v').mpr g0, g1, g2, g3, g4, fun j x k hm hnp => ?_⟩
   rw [← g5 j x k hm hnp]
   simp only [NodeD.inPin, dd.ins]
 
